@@ -143,17 +143,15 @@ End Fault.
 (* ---- instantiation: two pagers ---- *)
 Section PagerFault.
   Variables pg' pg : Z -> res (list byte).
-  Variable U : Z.
+  Variables op' op : Z -> res page.
   Variable npages : nat.
   Hypothesis Hpg : forall n, le_res (pg' n) (pg n).
+  Hypothesis Hop : forall n, le_res (op' n) (op n).
 
   Lemma db_page_le n : le_res (db_page pg' n) (db_page pg n).
   Proof. unfold db_page. destruct (n <? 1); [left; reflexivity|apply Hpg]. Qed.
 
-  Lemma openp_le n : le_res (openp pg' U n) (openp pg U n).
-  Proof.
-    unfold openp. destruct (db_page_le n) as [->|(e & ->)]; [left; reflexivity|right; exists e; reflexivity].
-  Qed.
+  Definition openp_le := Hop.
 
   Lemma ovf_walk_le : forall fuel seen to plen ovf,
     le_res (ovf_walk pg' fuel seen to plen ovf) (ovf_walk pg fuel seen to plen ovf).
@@ -180,33 +178,33 @@ Section PagerFault.
   (* the rows a scan sees under the faulty pager: the fault-free rows, or a
      prefix of them followed by an error *)
   Theorem table_rows_fault root :
-    flat_le (table_rows pg' U npages root) (table_rows pg U npages root).
+    flat_le (table_rows pg' op' npages root) (table_rows pg op npages root).
   Proof.
     unfold table_rows.
     destruct (open_table_le _ _ _ openp_le root) as [->|(e & ->)]; [|apply flat_le_err].
-    destruct (open_table _ (openp pg U) root) as [p|e]; [|apply flat_le_refl].
+    destruct (open_table _ op root) as [p|e]; [|apply flat_le_refl].
     apply trows_fault; [apply load_le|]. apply tflat_fault. apply openp_le.
   Qed.
 
   Theorem index_rows_fault root :
-    flat_le (index_rows pg' U npages root) (index_rows pg U npages root).
+    flat_le (index_rows pg' op' npages root) (index_rows pg op npages root).
   Proof.
     unfold index_rows.
     destruct (open_index_le _ _ _ openp_le root) as [->|(e & ->)]; [|apply flat_le_err].
-    destruct (open_index _ (openp pg U) root) as [p|e]; [|apply flat_le_refl].
+    destruct (open_index _ op root) as [p|e]; [|apply flat_le_refl].
     apply iflat_fault; [apply openp_le|apply load_le].
   Qed.
 
   (* C12 for the full scans, with the row-collecting callback: the faulty run
      either equals the fault-free run or fails having delivered a prefix *)
   Corollary table_scan_fault root :
-    let run p := table_scan p U npages _ root (fun k r s => stop_after None (k, r) s) [] in
-    run pg' = run pg \/
-    exists e rest, fst (run pg') = Fail e /\ snd (run pg) = rest ++ snd (run pg').
+    let run p := table_scan (fst p) (snd p) npages _ root (fun k r s => stop_after None (k, r) s) [] in
+    run (pg', op') = run (pg, op) \/
+    exists e rest, fst (run (pg', op')) = Fail e /\ snd (run (pg, op)) = rest ++ snd (run (pg', op')).
   Proof.
-    intros run; subst run; cbv beta. rewrite !table_scan_rows.
+    intros run; subst run; cbv beta; cbn [fst snd]. rewrite !table_scan_rows.
     destruct (table_rows_fault root) as [->|(e & rest & He & Hr)]; [left; reflexivity|].
-    right. destruct (table_rows pg' U npages root) as [l' oe']. destruct (table_rows pg U npages root) as [l oe].
+    right. destruct (table_rows pg' op' npages root) as [l' oe']. destruct (table_rows pg op npages root) as [l oe].
     cbn [fst snd] in *. subst. unfold run_flat. cbn [fst snd].
     assert (Hx: forall l s, run_cb (fun (x : Z * record) s => stop_after None (fst x, snd x) s) l s = run_cb (stop_after None) l s)
       by (intros l0 s0; apply run_cb_ext; intros [k r] s1; reflexivity).
@@ -217,16 +215,24 @@ Section PagerFault.
   Qed.
 
   Corollary index_scan_fault root :
-    let run p := index_scan p U npages _ root (stop_after None) [] in
-    run pg' = run pg \/
-    exists e rest, fst (run pg') = Fail e /\ snd (run pg) = rest ++ snd (run pg').
+    let run p := index_scan (fst p) (snd p) npages _ root (stop_after None) [] in
+    run (pg', op') = run (pg, op) \/
+    exists e rest, fst (run (pg', op')) = Fail e /\ snd (run (pg, op)) = rest ++ snd (run (pg', op')).
   Proof.
-    intros run; subst run; cbv beta. rewrite !index_scan_rows.
+    intros run; subst run; cbv beta; cbn [fst snd]. rewrite !index_scan_rows.
     destruct (index_rows_fault root) as [->|(e & rest & He & Hr)]; [left; reflexivity|].
-    right. destruct (index_rows pg' U npages root) as [l' oe']. destruct (index_rows pg U npages root) as [l oe].
+    right. destruct (index_rows pg' op' npages root) as [l' oe']. destruct (index_rows pg op npages root) as [l oe].
     cbn [fst snd] in *. subst. unfold run_flat. cbn [fst snd].
     rewrite !stop_after_none. cbn [Btree.andthen fst snd].
     exists e. exists (rev rest). split; [reflexivity|].
     destruct oe; cbn [fst snd]; rewrite rev_app_distr, !app_nil_r; reflexivity.
   Qed.
 End PagerFault.
+
+(* the page store of a pager inherits the failures of the pager *)
+Lemma openp_of_le pg' pg U : (forall n, le_res (pg' n) (pg n)) ->
+  forall n, le_res (openp pg' U n) (openp pg U n).
+Proof.
+  intros H n. unfold openp.
+  destruct (db_page_le pg' pg H n) as [->|(e & ->)]; [left; reflexivity|right; exists e; reflexivity].
+Qed.
